@@ -34,8 +34,8 @@ impl Property for C03 {
 
     fn runs(&self, tier: Tier) -> u64 {
         match tier {
-            Tier::Quick => 11 * 40,
-            Tier::Thorough => 11 * 1500,
+            Tier::Quick => 11 * 300,
+            Tier::Thorough => 11 * 6000,
         }
     }
 
